@@ -3,12 +3,12 @@ import Verif.Model.Common
   C17 — issuance fails closed when a webhook or the database fails.
 
   The model is the *ordered list of steps* each request performs, executed against an
-  arbitrary fault function.  A step is either an external call (a `nosql` database operation
-  or a webhook HTTP attempt — these are numbered 0,1,2,… in the order the request makes
-  them, and `Env.f : Nat → Outcome` says how the call at each position is answered) or an
-  in-process decision (token validation, request validators, policy, signing by the in-process
-  CAS — numbered separately, `Env.g : Nat → Bool`).  Both functions are arbitrary in every
-  theorem, so a theorem covers every fault sequence, not one fault.
+  arbitrary fault function.  A step is either an external call (a `nosql` database operation,
+  a webhook HTTP attempt, a call to the certificate authority service — these are numbered
+  0,1,2,… in the order the request makes them, and `Env.f : Nat → Outcome` says how the call at
+  each position is answered) or an in-process decision (token validation, request validators,
+  policy, SSH signing, PKCS#7 work — numbered separately, `Env.g : Nat → Bool`).  Both
+  functions are arbitrary in every theorem, so a theorem covers every fault sequence.
 
   Go code modelled (file: function → definition here)
     authority/authorize.go: authorizeToken, UseToken            → `Kind.useToken`, `authorizeTokenSteps`
@@ -18,29 +18,50 @@ import Verif.Model.Common
     authority/tls.go:       signX509                            → `signX509Steps`
                             renewContext, storeRenewedCertificate → `renewContextSteps`
                             Revoke                              → `revokeTokenSteps`, `revokeMTLSSteps`, `revokeSSHSteps`
+                            GenerateCertificateRevocationList (on revoke) → `crlSteps`
     authority/ssh.go:       signSSH / renewSSH / rekeySSH       → `signSSHSteps` / `renewSSHSteps` / `rekeySSHSteps`
     authority/provisioner/webhook.go: Webhook.DoWithContext (one retry after a transport
-                            error or a 5xx), WebhookController.Enrich / Authorize → `webhook`
+                            error or a 5xx) → `attempt`; WebhookController.Enrich / Authorize → `webhook`
+    authority/provisioner/scep.go: challengeValidationController.Validate → `Kind.challenge`,
+                            `Kind.challengeDone`; notificationController → `Kind.notify`
     db/db.go:               UseToken, IsRevoked, IsSSHRevoked, Revoke, RevokeSSH (CmpAndSwap),
                             StoreCertificateChain, StoreRenewedCertificate, StoreSSHCertificate
-                            (one `Update` transaction) → the per-kind clauses of `exec`
+                            (one `Update` transaction) → the per-kind clauses of `execDB`
+    db/simple.go:           SimpleDB → `execMem`
+    cas/apiv1:              CreateCertificate / RenewCertificate / RevokeCertificate / CreateCRL
+                            → `Kind.casSign`, `Req.casRevoke`, `Req.casCRL`
+    acme/api/middleware.go, acme/api/order.go FinalizeOrder → `finalizeHandlerPre`
     acme/order.go:          Order.Finalize                      → `finalizeSteps`
+    scep/api/api.go PKIOperation, scep/authority.go SignCSR → `pkiOperationSteps`, `signCSRSteps`
     api/{sign,renew,rekey,revoke,ssh,sshRenew,sshRekey,sshRevoke}.go: handler = authorize then
                             operate; any error → error response without certificate → `steps`, `client`
 
-  Outcomes of an external call (what the harness can realise is listed in notes/C17.md):
-    ok         database: applied / found nothing;  webhook: 2xx, decodable, allow=true
-    error      database: error returned, nothing applied;  webhook: transport error or status ≥ 500
-    timeout    database: applied but the acknowledgement is lost (error returned);
+  Outcomes of an external call (what the harness realises is listed in notes/C17.md):
+    ok         applied / found nothing / allow
+    error      database, CAS: error returned, nothing applied;  webhook: transport error or status ≥ 500
+    timeout    database, CAS: applied but the acknowledgement is lost (error returned);
                webhook: no answer before the client's deadline
-    deny       database: CmpAndSwap not swapped / a value is present;  webhook: allow=false or status 4xx
-    malformed  database: a value that does not decode;  webhook: undecodable body
+    deny       database: CmpAndSwap not swapped / a value is present;  webhook: allow=false
+    malformed  database: a value that does not decode;  webhook: undecodable body or an error
+               status below 500 (not retried)
 -/
 namespace Verif.FailClosed
 
 inductive Outcome where
   | ok | error | timeout | deny | malformed
   deriving DecidableEq, Repr, Inhabited
+
+/-- external calls that only have to succeed -/
+inductive Req where
+  /-- `x509CAService.RevokeCertificate` -/
+  | casRevoke
+  /-- `GenerateCertificateRevocationList` on revoke: `GetCRL`, `GetRevokedCertificates`,
+      `CreateCRL` (CAS), `StoreCRL` -/
+  | crlRead | crlList | casCRL | crlStore
+  /-- ACME: nonce consumption, account / order / authorization reads, serial index write,
+      nonce for the reply -/
+  | acmeNonceUse | acmeRead | acmeIndex | acmeNonceNew
+  deriving DecidableEq, Repr
 
 inductive Kind where
   /-- `db.UseToken`: CmpAndSwap(used_ott, id, nil, token) -/
@@ -61,18 +82,26 @@ inductive Kind where
   | storeRev
   /-- in-process decision that can refuse the request -/
   | check
-  /-- signing by the (in-process) CAS; produces the certificate -/
+  /-- `x509CAService.CreateCertificate` / `RenewCertificate`: an external call (the CAS may be
+      a remote service); produces the certificate -/
   | casSign
-  /-- CAS revoke (a no-op for the in-process CAS) -/
-  | casRevoke
-  /-- ACME database reads of `Order.Finalize` (order status, authorizations): error aborts -/
-  | acmeRead
-  /-- `acme.DB.CreateCertificate` -/
+  /-- SSH certificates are signed in process with the authority's SSH key -/
+  | sshSign
+  /-- an external call with no modelled effect whose failure aborts the request -/
+  | req (t : Req)
+  /-- `acme.DB.CreateCertificate`, first write (the certificate object) -/
   | acmeStoreCert
-  /-- second write of `acme.DB.CreateCertificate`: the serial → certificate id index -/
-  | acmeIndex
   /-- `acme.DB.UpdateOrder` (status valid, certificate id) -/
   | acmeUpdateOrder
+  /-- one SCEPCHALLENGE webhook: allow counts, allow=false goes on to the next, anything else aborts -/
+  | challenge
+  /-- end of `challengeValidationController.Validate`: no webhook allowed ⇒ refuse -/
+  | challengeDone
+  /-- from here on a failure is reported to the NOTIFYING webhooks (`NotifyFailure`) -/
+  | arm
+  /-- one NOTIFYING webhook: its failure is ignored by the request (it only ends the
+      notification loop; `allow` is not looked at) -/
+  | notify
   deriving DecidableEq, Repr
 
 /-- What survives the request. Tables only grow. -/
@@ -104,6 +133,13 @@ structure St where
   /-- provisioner data will be written with the certificate (`StoreCertificateChain` always,
       `StoreRenewedCertificate` only when the preceding read succeeded, SSH never) -/
   dataOk : Bool := false
+  /-- SCEP: number of challenge webhooks that allowed -/
+  allowed : Nat := 0
+  /-- SCEP: a failure from here on is sent to the NOTIFYING webhooks -/
+  armed : Bool := false
+  /-- SCEP: a NOTIFYING webhook failed; `notificationController.Success/Failure` returned at
+      that point, the remaining NOTIFYING webhooks are not called -/
+  muted : Bool := false
   deriving Repr
 
 structure Env where
@@ -130,12 +166,14 @@ def retryable : Outcome → Bool
   | .error => true
   | _ => false
 
-def webhook (e : Env) (s : St) (k : Kind) : Bool × St :=
+/-- all attempts `DoWithContext` makes for one webhook; the answer that decides -/
+def attempt (e : Env) (s : St) (k : Kind) : Outcome × St :=
   let r1 := call e s k
-  if retryable r1.1 then
-    let r2 := call e r1.2 k
-    (r2.1 == .ok, r2.2)
-  else (r1.1 == .ok, r1.2)
+  if retryable r1.1 then call e r1.2 k else r1
+
+def webhook (e : Env) (s : St) (k : Kind) : Bool × St :=
+  let r := attempt e s k
+  (r.1 == .ok, r.2)
 
 def decide' (e : Env) (s : St) : Bool × St := (e.g s.chk, { s with chk := s.chk + 1 })
 
@@ -195,13 +233,13 @@ def execDB (e : Env) (s : St) : Kind → R
     let r := decide' e s
     if r.1 then .next r.2 else .abort r.2
   | .casSign =>
+    let r := call e s .casSign
+    if r.1 = .ok then .next { r.2 with cert := true } else .abort r.2
+  | .sshSign =>
     let r := decide' e s
     if r.1 then .next { r.2 with cert := true } else .abort r.2
-  | .casRevoke =>
-    let r := decide' e s
-    if r.1 then .next r.2 else .abort r.2
-  | .acmeRead =>
-    let r := call e s .acmeRead
+  | .req t =>
+    let r := call e s (.req t)
     if r.1 = .ok then .next r.2 else .abort r.2
   | .acmeStoreCert =>
     let r := call e s .acmeStoreCert
@@ -209,15 +247,25 @@ def execDB (e : Env) (s : St) : Kind → R
     | .ok => .next { r.2 with d := { r.2.d with acmeCerts := r.2.d.acmeCerts + 1 } }
     | .timeout => .abort { r.2 with d := { r.2.d with acmeCerts := r.2.d.acmeCerts + 1 } }
     | _ => .abort r.2
-  | .acmeIndex =>
-    let r := call e s .acmeIndex
-    if r.1 = .ok then .next r.2 else .abort r.2
   | .acmeUpdateOrder =>
     let r := call e s .acmeUpdateOrder
     match r.1 with
     | .ok => .next { r.2 with d := { r.2.d with orderValid := true } }
     | .timeout => .abort { r.2 with d := { r.2.d with orderValid := true } }
     | _ => .abort r.2
+  | .challenge =>
+    let r := attempt e s .challenge
+    match r.1 with
+    | .ok => .next { r.2 with allowed := r.2.allowed + 1 }
+    | .deny => .next r.2
+    | _ => .abort r.2
+  | .challengeDone => if s.allowed = 0 then .abort s else .next s
+  | .arm => .next { s with armed := true }
+  | .notify =>
+    if s.muted then .next s
+    else
+      let r := attempt e s .notify
+      .next { r.2 with muted := !(r.1 == .ok || r.1 == .deny) }
 
 def exec (e : Env) (s : St) (k : Kind) : R :=
   if e.db = false ∧ k.isStore = true then execMem s k else execDB e s k
@@ -235,13 +283,17 @@ def run (e : Env) : List Kind → St → St × Bool
 
 inductive Op where
   | sign | renew | rekey | revoke | revokeMTLS
-  | sshSign | sshRenew | sshRekey | sshRevoke | acmeFinalize
+  | sshSign | sshRenew | sshRekey | sshRevoke | acmeFinalize | scepEnroll
   deriving DecidableEq, Repr
 
-/-- number of enriching / authorizing webhooks configured on the provisioner -/
+/-- the provisioner's webhooks (numbers of ENRICHING, AUTHORIZING, SCEPCHALLENGE, NOTIFYING
+    ones) and whether a CRL is regenerated on revoke (`crl.enabled` + `generateOnRevoke`) -/
 structure Cfg where
   e : Nat
   a : Nat
+  ch : Nat := 0
+  n : Nat := 0
+  crl : Bool := false
 
 /-- `authorizeToken`: the token is recorded (`UseToken`) … -/
 def authorizeTokenSteps : List Kind := [.useToken]
@@ -265,49 +317,85 @@ def renewContextSteps : List Kind := authorizeRenewSteps ++ [.check, .casSign] +
 
 /-- `Revoke` with a token: expiry lookup (ignored error); token parsing and provisioner lookup;
     certificate lookup (ignored error); CAS; `db.Revoke`. -/
-def revokeTokenSteps : List Kind := [.readCert, .check, .readCert, .casRevoke, .storeRev]
+def revokeTokenBase : List Kind := [.readCert, .check, .readCert, .req .casRevoke, .storeRev]
 /-- `Revoke` over mTLS: provisioner lookup by certificate (ignored error); CAS; `db.Revoke`. -/
-def revokeMTLSSteps : List Kind := [.readData, .casRevoke, .storeRev]
+def revokeMTLSBase : List Kind := [.readData, .req .casRevoke, .storeRev]
+/-- `GenerateCertificateRevocationList`, called by `Revoke` after the record is written when
+    `crl.generateOnRevoke` is set (X.509 only — the SSH branch never regenerates): stored CRL,
+    list of revocations, `CreateCRL` at the CAS, `StoreCRL`.  Any error is the request's error. -/
+def crlSteps (c : Cfg) : List Kind :=
+  if c.crl then [.req .crlRead, .req .crlList, .req .casCRL, .req .crlStore] else []
+def revokeTokenSteps (c : Cfg) : List Kind := revokeTokenBase ++ crlSteps c
+def revokeMTLSSteps (c : Cfg) : List Kind := revokeMTLSBase ++ crlSteps c
 /-- `Revoke` in the SSH method: token parsing; `db.RevokeSSH`. -/
 def revokeSSHSteps : List Kind := [.check, .storeRev]
 
 /-- The body of `Revoke` in source order (the three request paths are sub-sequences of it:
-    `revoke_paths_in_source_order` in Props/C17). -/
+    `revoke_paths_in_source_order` in Props/C17); `crl` stands for the four CRL steps. -/
 def revokeSourceOrder : List Kind :=
-  [.readCert, .check, .readData, .storeRev, .readCert, .casRevoke, .storeRev]
+  [.readCert, .check, .readData, .storeRev, .readCert, .req .casRevoke, .storeRev]
 
 /-- `signSSH`: option validators; enriching webhooks; template, modifiers, policy;
     authorizing webhooks; sign; certificate validators; store. -/
 def signSSHSteps (c : Cfg) : List Kind :=
-  [.check] ++ List.replicate c.e .enrich ++ [.check] ++ List.replicate c.a .authorize ++ [.casSign, .check, .store]
+  [.check] ++ List.replicate c.e .enrich ++ [.check] ++ List.replicate c.a .authorize ++ [.sshSign, .check, .store]
 /-- `renewSSH`: `authorizeSSHCertificate` (IsSSHRevoked); sign; store. -/
-def renewSSHSteps : List Kind := [.isRevoked, .casSign, .store]
+def renewSSHSteps : List Kind := [.isRevoked, .sshSign, .store]
 /-- `rekeySSH`: `authorizeSSHCertificate`; sign; validators; store. -/
-def rekeySSHSteps : List Kind := [.isRevoked, .casSign, .check, .store]
+def rekeySSHSteps : List Kind := [.isRevoked, .sshSign, .check, .store]
 
 /-- `Order.Finalize` on an order that is already `ready` (`UpdateStatus` then makes no call):
-    fingerprint lookup (reads the `n` authorizations), CSR / identifier checks and the
+    fingerprint lookup (reads the `n` authorizations, each with its one challenge — modelled as
+    `n` reads and `n` more), CSR / identifier checks and the
     provisioner's `AuthorizeSign`, `SignWithContext` (= `signX509`), `CreateCertificate`
     (certificate, then serial index), `UpdateOrder` (status valid, certificate id). -/
-def finalizePre (n : Nat) : List Kind := List.replicate n .acmeRead ++ [.check]
+def finalizePre (n : Nat) : List Kind :=
+  List.replicate n (.req .acmeRead) ++ List.replicate n (.req .acmeRead) ++ [.check]
 /-- `acme/db/nosql` `CreateCertificate`: the certificate, then the serial index. -/
-def createCertificateSteps : List Kind := [.acmeStoreCert, .acmeIndex]
+def createCertificateSteps : List Kind := [.acmeStoreCert, .req .acmeIndex]
 /-- `acme/db/nosql` `UpdateOrder`: read the stored order, then compare-and-swap. -/
-def updateOrderSteps : List Kind := [.acmeRead, .acmeUpdateOrder]
+def updateOrderSteps : List Kind := [.req .acmeRead, .acmeUpdateOrder]
 def finalizePost : List Kind := createCertificateSteps ++ updateOrderSteps
 def finalizeSteps (n : Nat) (c : Cfg) : List Kind := finalizePre n ++ signX509Steps c ++ finalizePost
+
+/-- The JWS middleware in front of `acme/api.FinalizeOrder` (`acme/api/middleware.go`):
+    `addNonce` creates the reply nonce, `parseJWS`/`validateJWS` consume the request nonce,
+    `lookupJWK` reads the account named by the key id, `verifyAndExtractJWSPayload` checks the
+    signature; the handler parses the payload, reads the order and checks that it belongs to the
+    account and the provisioner.  Each failure is an error response. -/
+def finalizeHandlerPre : List Kind :=
+  [.req .acmeNonceNew, .check, .req .acmeNonceUse, .req .acmeRead, .check, .req .acmeRead, .check]
+
+/-- `scep.Authority.SignCSR`: the provisioner's sign options and template, `SignWithContext`
+    (= `signX509`, with the provisioner's ENRICHING / AUTHORIZING webhooks), encryption of the
+    certificate to the requester (fails for a requester without an RSA key), signing of the
+    reply. -/
+def signCSRSteps (c : Cfg) : List Kind := [.check] ++ signX509Steps c ++ [.check, .check]
+
+/-- `provisioner.SCEP.ValidateChallenge`: with SCEPCHALLENGE webhooks,
+    `challengeValidationController.Validate` (the first webhook error aborts; at least one must
+    allow); otherwise the static comparison. -/
+def validateChallengeSteps (c : Cfg) : List Kind :=
+  if c.ch = 0 then [.check] else List.replicate c.ch .challenge ++ [.challengeDone]
+
+/-- `scep/api.PKIOperation` for a PKCSReq: parse and decrypt; validate the challenge; sign;
+    on failure of the signing `NotifyFailure`, on success `NotifySuccess` (errors of either
+    ignored). -/
+def pkiOperationSteps (c : Cfg) : List Kind :=
+  [.check] ++ validateChallengeSteps c ++ [.arm] ++ signCSRSteps c ++ List.replicate c.n .notify
 
 def steps : Op → Cfg → List Kind
   | .sign, c => authorizeSteps ++ signX509Steps c
   | .renew, _ => renewContextSteps
   | .rekey, _ => renewContextSteps
-  | .revoke, _ => authorizeSteps ++ revokeTokenSteps
-  | .revokeMTLS, _ => revokeMTLSSteps
+  | .revoke, c => authorizeSteps ++ revokeTokenSteps c
+  | .revokeMTLS, c => revokeMTLSSteps c
   | .sshSign, c => authorizeSteps ++ signSSHSteps c
   | .sshRenew, _ => authorizeSteps ++ renewSSHSteps
   | .sshRekey, _ => authorizeSteps ++ rekeySSHSteps
   | .sshRevoke, _ => authorizeSteps ++ revokeSSHSteps
-  | .acmeFinalize, c => finalizeSteps 1 c
+  | .acmeFinalize, c => finalizeHandlerPre ++ finalizeSteps 1 c
+  | .scepEnroll, c => pkiOperationSteps c
 
 def Op.usesToken : Op → Bool
   | .sign | .revoke | .sshSign | .sshRenew | .sshRekey | .sshRevoke => true
@@ -319,13 +407,19 @@ def Op.revokes : Op → Bool
 
 /-- `StoreCertificateChain` writes the provisioner data with the certificate. -/
 def Op.writesData : Op → Bool
-  | .sign | .acmeFinalize => true
+  | .sign | .acmeFinalize | .scepEnroll => true
   | _ => false
 
 def init (op : Op) (d : Durable) : St := { d := d, dataOk := op.writesData }
 
+/-- `NotifyFailure`: every NOTIFYING webhook is told; nothing else happens -/
+def notifyFailure (e : Env) (c : Cfg) (s : St) : St := (run e (List.replicate c.n .notify) s).1
+
+/-- the whole request: the steps in order; a failure after `arm` (SCEP) is additionally sent
+    to the NOTIFYING webhooks before the failure reply -/
 def runOp (e : Env) (op : Op) (c : Cfg) (d : Durable) : St × Bool :=
-  run e (steps op c) (init op d)
+  let r := run e (steps op c) (init op d)
+  if r.2 = false ∧ r.1.armed = true then (notifyFailure e c r.1, false) else r
 
 /-- what the client holds after the response -/
 inductive Client where
@@ -340,22 +434,27 @@ def client (op : Op) (r : St × Bool) : Client :=
 /-! ### what a completed request's trace may contain -/
 
 def Kind.tolerated : Kind → Bool
-  | .readCert | .readData => true
+  | .readCert | .readData | .notify => true
   | _ => false
 
 def Kind.isWebhook : Kind → Bool
-  | .enrich | .authorize => true
+  | .enrich | .authorize | .challenge | .notify => true
   | _ => false
 
-/-- A trace is *benign* when every call in it was answered `ok`, except reads whose error the
-    code ignores, and webhook attempts that failed retryably and were immediately followed by
-    a successful second attempt against the same kind of webhook. -/
+/-- an answer that lets the request go on: `ok`; anything at a call whose failure the code
+    ignores; `allow=false` from one SCEP challenge webhook (another one may still allow) -/
+def Ev.harmless (ev : Ev) : Bool :=
+  ev.out == .ok || ev.kind.tolerated || (ev.kind == .challenge && ev.out == .deny)
+
+/-- A trace is *benign* when every call in it was answered harmlessly, except webhook attempts
+    that failed retryably and were immediately followed by a harmless second attempt against
+    the same kind of webhook. -/
 def benign : List Ev → Bool
   | [] => true
-  | [ev] => ev.out == .ok || ev.kind.tolerated
+  | [ev] => ev.harmless
   | ev :: ev2 :: rest =>
-    if ev.out = .ok ∨ ev.kind.tolerated = true then benign (ev2 :: rest)
-    else ev.kind.isWebhook && ev.out == .error && ev2.kind == ev.kind && ev2.out == .ok && benign rest
+    if ev.harmless then benign (ev2 :: rest)
+    else ev.kind.isWebhook && ev.out == .error && ev2.kind == ev.kind && ev2.harmless && benign rest
 
 /-! ### rendering (driver) -/
 
@@ -365,15 +464,18 @@ def Outcome.str : Outcome → String
 def Kind.str : Kind → String
   | .useToken => "useToken" | .isRevoked => "isRevoked" | .readCert => "readCert" | .readData => "readData"
   | .enrich => "enrich" | .authorize => "authorize" | .store => "store" | .storeRev => "storeRev"
-  | .check => "check" | .casSign => "casSign" | .casRevoke => "casRevoke"
-  | .acmeRead => "acmeRead" | .acmeStoreCert => "acmeStoreCert" | .acmeIndex => "acmeIndex"
-  | .acmeUpdateOrder => "acmeUpdateOrder"
+  | .check => "check" | .casSign => "casSign" | .sshSign => "sshSign"
+  | .req .casRevoke => "casRevoke" | .req .crlRead => "crlRead" | .req .crlList => "crlList"
+  | .req .casCRL => "casCRL" | .req .crlStore => "crlStore" | .req .acmeNonceUse => "acmeNonceUse"
+  | .req .acmeRead => "acmeRead" | .req .acmeIndex => "acmeIndex" | .req .acmeNonceNew => "acmeNonceNew"
+  | .acmeStoreCert => "acmeStoreCert" | .acmeUpdateOrder => "acmeUpdateOrder"
+  | .challenge => "challenge" | .challengeDone => "challengeDone" | .arm => "arm" | .notify => "notify"
 
 /-- How the source must treat the error of a call of this kind (compared with the go/ast
     extraction): `!` the error aborts before the success return, `!~` same but
     `db.ErrNotImplemented` is let through, `?` the error is ignored. -/
 def Kind.guard : Kind → String
-  | .readCert | .readData => "?"
+  | .readCert | .readData | .notify => "?"
   | .store => "!~"
   | _ => "!"
 
